@@ -347,7 +347,9 @@ fn show(m: &BTreeMap<Key, String>) -> Value {
     Value::Object(m.iter().map(|((t, k), v)| (format!("{t}|{k}"), json!(v))).collect())
 }
 
-fn run_rules(vname: &'static str, rules: AuthorizationRules, thorough: bool) -> (u64, Vec<Value>, Vec<Value>, Vec<Value>, Vec<Value>) {
+fn run_rules(vname: &'static str, rules: AuthorizationRules, thorough: bool) -> (u64, Vec<Value>, Vec<Value>, Vec<Value>, Vec<Value>, u64, Vec<Value>) {
+    let mut nontrivial = 0u64;
+    let mut samples: Vec<Value> = vec![];
     let (mut n, mut f_ref, mut f_det, mut f_single, mut f_panic) = (0u64, vec![], vec![], vec![], vec![]);
     let m = menu();
     let timestamp_modes = if thorough { vec![0u8, 1, 2] } else { vec![0, 1] };
@@ -454,6 +456,13 @@ fn run_rules(vname: &'static str, rules: AuthorizationRules, thorough: bool) -> 
                 .collect();
             n += 1;
             let want = resolve_ref(&rules, &w, &tips);
+            // non-trivial: the state sets really conflict (some key has different values at the tips)
+            if tips.iter().any(|t| t != &tips[0]) {
+                nontrivial += 1;
+                if samples.len() < 2 {
+                    samples.push(json!({"rules": vname, "forks": shape.iter().map(|f| f.iter().map(|i| if *i == usize::MAX { "(after the first event of fork 1)" } else { m[*i].0 }).collect::<Vec<_>>()).collect::<Vec<_>>(), "resolved": show(&want)}));
+                }
+            }
             let describe = |got: &Value| {
                 json!({"rules": vname, "forks": shape.iter().map(|f| f.iter().map(|i| if *i == usize::MAX { "(after the first event of fork 1)" } else { m[*i].0 }).collect::<Vec<_>>()).collect::<Vec<_>>(), "timestamps": (["increasing", "all equal", "reversed"][tsmode as usize]),
                     "resolve_returns": got, "state_resolution_v2_gives": show(&want)})
@@ -496,7 +505,7 @@ fn run_rules(vname: &'static str, rules: AuthorizationRules, thorough: bool) -> 
             }
         }
     }
-    (n, f_ref, f_det, f_single, f_panic)
+    (n, f_ref, f_det, f_single, f_panic, nontrivial, samples)
 }
 
 /// every DAG on up to 5 nodes (edges i -> j for j < i: j must come first), keys (power, ts) from a 2x2 domain
@@ -553,10 +562,13 @@ pub fn run(tier: &str) -> Report {
     let handles: Vec<_> = versions.into_iter().map(|(vn, r)| std::thread::spawn(move || run_rules(vn, r, thorough))).collect();
     let topo_h = std::thread::spawn(run_topo);
     let (mut n, mut f_ref, mut f_det, mut f_single, mut f_panic) = (0u64, vec![], vec![], vec![], vec![]);
+    let (mut nontrivial, mut samples) = (0u64, vec![]);
     for h in handles {
         match h.join() {
-            Ok((k, a, b, c, d)) => {
+            Ok((k, a, b, c, d, nt, sm)) => {
                 n += k;
+                nontrivial += nt;
+                samples.extend(sm);
                 for x in a { fail(&mut f_ref, x); }
                 for x in b { fail(&mut f_det, x); }
                 for x in c { fail(&mut f_single, x); }
@@ -566,6 +578,11 @@ pub fn run(tier: &str) -> Report {
         }
     }
     let (nt, f_topo) = topo_h.join().unwrap_or((0, vec![json!({"observed": "topological sort enumeration panicked"})]));
+    *super::EXTRA.lock().unwrap() = Some((
+        nontrivial,
+        "cases are (authorization rules, fork shape, timestamp assignment) triples; each is generated once, so they are distinct; a case is non-trivial when the state maps at the fork tips differ (there is something to resolve)".to_owned(),
+        samples,
+    ));
     Report {
         bound: format!("{n} fork scenarios (base room + 2..3 forks of 1..2 events from a 13-event menu, each valid in its fork) x timestamp assignments, for {} authorization rule sets; {nt} DAGs with keys for the topological sort (all DAGs on <= 4 nodes, 1/16 of those on 5)", if thorough { 4 } else { 2 }),
         cases: n + nt,
